@@ -45,7 +45,7 @@ Section Sample.
   Proof.
     intros I Eb. destruct I as (pre & done & E & Ec & Ed).
     destruct (d_rest (sr_dec r)) as [|s rest] eqn:Er.
-    - left. split; [reflexivity|]. unfold sample_refill. rewrite (read_frame_none F _ Er).
+    - left. split; [reflexivity|]. unfold sample_refill. rewrite (read_frame_none F V _ pre E Er Ec).
       destruct r; reflexivity.
     - right. destruct (read_frame_some F V _ pre s rest E Er Ec) as (f & -> & Hf & Hrf).
       exists f, rest. eexists. split; [reflexivity|]. split; [exact Hf|].
@@ -249,7 +249,8 @@ Section Sample.
   Qed.
 
   Lemma sample_seek_ok r s : SInv r -> s < U64 ->
-    SInv (fst (sample_seek F r s)) /\ cur_ok data (abs_s F (r, SSeek s, snd (sample_seek F r s))).
+    SInv (fst (sample_seek F r s)) /\ cur_ok data (abs_s F (r, SSeek s, snd (sample_seek F r s))) /\
+    (f_seekable F = true -> total_frames F < s -> spos F (fst (sample_seek F r s)) = lenN data).
   Proof.
     intros I Hs. pose proof (spos_le r I) as Hle. pose proof sdata_total_len as Hlen.
     unfold cur_ok, abs_s. cbn [e_pos e_op e_out e_pos' sample_step]. unfold sample_target, sample_seek.
@@ -260,12 +261,13 @@ Section Sample.
       cbn [sr_dec d_rest] in HS. specialize (HS ltac:(lia)). cbn [d_rest].
       destruct (sample_skip F (S (S (length rest))) _ o s) as [r' out].
       destruct HS as (I' & [(Hdl & -> & P')|(Hdl & -> & P')]); cbn [fst snd abs_out_data samples_of item_of].
-      + split; [exact I'|]. split; [exact Hle|]. split; [now apply spos_le|].
+      + split; [exact I'|]. split; [|intros _ Hgt; lia]. split; [exact Hle|]. split; [now apply spos_le|].
         replace (s <=? total_frames F) with true by (symmetry; apply N.leb_le; lia).
         split; [rewrite Hlen; nia | exact P'].
-      + split; [exact I'|]. split; [exact Hle|]. split; [now apply spos_le|].
+      + split; [exact I'|]. split; [|intros _ _; exact P']. split; [exact Hle|]. split; [now apply spos_le|].
         replace (s <=? total_frames F) with false by (symmetry; apply N.leb_gt; lia).
         auto.
-    - cbn [fst snd abs_out_data samples_of item_of]. split; [exact I|]. split; [exact Hle|]. split; [exact Hle|]. auto.
+    - cbn [fst snd abs_out_data samples_of item_of]. split; [exact I|]. split; [|discriminate].
+      split; [exact Hle|]. split; [exact Hle|]. auto.
   Qed.
 End Sample.
